@@ -63,6 +63,24 @@ theorem updateDegreesWith_same_struct (g : Graph) (eorder : List Key) :
   have := updateDegreesWith_frame g eorder
   exact ⟨this.1, this.2.1, this.2.2.1⟩
 
+theorem resetCycleCache_same (g : Graph) : SameStruct g (resetCycleCache g) := ⟨rfl, rfl, rfl, rfl, rfl, rfl, rfl, rfl⟩
+theorem setCycleClean_same (g : Graph) : SameStruct g (setCycleClean g) := ⟨rfl, rfl, rfl, rfl, rfl, rfl, rfl, rfl⟩
+@[simp] theorem resetCycleCache_sortedDirty (g : Graph) : (resetCycleCache g).sortedDirty = g.sortedDirty := rfl
+@[simp] theorem setCycleClean_sortedDirty (g : Graph) : (setCycleClean g).sortedDirty = g.sortedDirty := rfl
+
+theorem detectCyclesWith_dirty (g : Graph) (eorder norder : List Key)
+    (h : (updateDegreesWith g eorder).cycleDirty = true) :
+    detectCyclesWith g eorder norder =
+      (setCycleClean (detectLoop (resetCycleCache (updateDegreesWith g eorder)) norder).1,
+       (detectLoop (resetCycleCache (updateDegreesWith g eorder)) norder).2) := by
+  simp [detectCyclesWith, h]
+
+theorem detectCyclesWith_clean (g : Graph) (eorder norder : List Key)
+    (h : (updateDegreesWith g eorder).cycleDirty = false) :
+    (detectCyclesWith g eorder norder).1 = updateDegreesWith g eorder := by
+  simp only [detectCyclesWith, h, Bool.false_eq_true, ↓reduceIte]
+  split <;> rfl
+
 /-- after `DetectCycles` — whatever it answers and for every iteration order — the graph is
 structurally the one before, with its degree/dependent fields in sync -/
 theorem detectCyclesWith_base_synced (g : Graph) (eorder norder : List Key) (hp : eorder.Perm g.ekeys)
@@ -72,20 +90,15 @@ theorem detectCyclesWith_base_synced (g : Graph) (eorder norder : List Key) (hp 
   have b1 := updateDegreesWith_base g eorder hp b
   have s1 := updateDegreesWith_synced g eorder hp b
   have f1 := updateDegreesWith_same_struct g eorder
-  unfold detectCyclesWith
-  simp only []
-  split
-  · split
-    · exact ⟨b1, s1, f1.1, f1.2.1⟩
-    · exact ⟨b1, s1, f1.1, f1.2.1⟩
-  · have hs0 : SameStruct (updateDegreesWith g eorder) { updateDegreesWith g eorder with cycleTrue := [] } :=
-      ⟨rfl, rfl, rfl, rfl, rfl, rfl, rfl, rfl⟩
-    have hs1 := detectLoop_same norder { updateDegreesWith g eorder with cycleTrue := [] }
-    have hs := hs0.trans hs1
-    have hs2 : SameStruct (detectLoop { updateDegreesWith g eorder with cycleTrue := [] } norder).1
-        { (detectLoop { updateDegreesWith g eorder with cycleTrue := [] } norder).1 with cycleDirty := false } :=
-      ⟨rfl, rfl, rfl, rfl, rfl, rfl, rfl, rfl⟩
-    have hs3 := hs.trans hs2
-    exact ⟨hs3.base b1, hs3.synced s1, hs3.nodes.trans f1.1, hs3.edges.trans f1.2.1⟩
+  cases hd : (updateDegreesWith g eorder).cycleDirty with
+  | false =>
+    rw [detectCyclesWith_clean g eorder norder hd]
+    exact ⟨b1, s1, f1.1, f1.2.1⟩
+  | true =>
+    rw [detectCyclesWith_dirty g eorder norder hd]
+    have hs : SameStruct (updateDegreesWith g eorder)
+        (setCycleClean (detectLoop (resetCycleCache (updateDegreesWith g eorder)) norder).1) :=
+      ((resetCycleCache_same (updateDegreesWith g eorder)).trans (detectLoop_same norder _)).trans (setCycleClean_same _)
+    exact ⟨hs.base b1, hs.synced s1, hs.nodes.trans f1.1, hs.edges.trans f1.2.1⟩
 
 end Godi.Graph
